@@ -670,6 +670,18 @@ class IterOnly(object):
         return self.src
 
 
+class SizedIterOnly(IterOnly):
+    """a sized LAZY iterable (a reader that knows how many records it has, a huge range): __len__ and __iter__, no __next__;
+    having a length does not make reading it cheap or finite - run() / __call__() must still pull nothing"""
+
+    def __init__(self, src, n):
+        IterOnly.__init__(self, src)
+        self.n = n
+
+    def __len__(self):
+        return 10 ** 9 if self.n is None else self.n
+
+
 def make_iter(pipe, src, mode):
     """build the pipeline and call run(): returns the result iterator.
     modes: sequence / source: Sequence(*els).run(iterator), Source(callable returning the iterator, *els)();
@@ -681,6 +693,10 @@ def make_iter(pipe, src, mode):
         return Source(IterOnly(src), *els)()
     if mode == "sequence-iterable":
         return Sequence(*els).run(IterOnly(src))
+    if mode == "source-sized":
+        return Source(SizedIterOnly(src, getattr(src, "n", None)), *els)()
+    if mode == "sequence-sized":
+        return Sequence(*els).run(SizedIterOnly(src, getattr(src, "n", None)))
     return Sequence(*els).run(src)
 
 
@@ -1252,13 +1268,14 @@ def body(R):
 
     ns = lengths(T)
     R.scope("single streaming elements: Sequence(e).run(input) and Source(input, e)()",
-            "the input as an iterator and as an iterable without __next__; the empty pipeline and %d element instances "
+            "the input as an iterator, as an iterable without __next__ and as a sized lazy iterable (__len__ + __iter__); the empty pipeline and %d element instances "
             "(callable, callable object, Variable, Print, Context, UpdateContext, MakeFilename, UpdateContextFromStatic, 6 Filters, Count, 11 non-negative and 12 negative Slices, 5 RunIf, 15 Splits incl. "
             "bufsize 1/2/3/4/1000/None, Source / fill-compute / Slice / Count / nested-Split branches); input lengths %s "
             "(None = infinite with a %d-pull watchdog, %d results taken); every consumer stop point k = 0..all results "
             "and exhaustion; after each k: (pulled, end probed) within the determining-prefix interval"
             % (len(SINGLES), ns, BUDGET, K_INF), True)
-    run_scope([[]] + [[d] for d in SINGLES], ns, ["sequence", "source", "sequence-iterable", "source-iterable"])
+    run_scope([[]] + [[d] for d in SINGLES], ns, ["sequence", "source", "sequence-iterable", "source-iterable",
+                                                  "sequence-sized", "source-sized"])
 
     pair = SINGLES if T else PAIR_QUICK
     ns2 = [0, 1, 2, 3, 4, 5, 7, None] if T else [0, 3, 5, None]
